@@ -8,19 +8,79 @@ HERE = os.path.dirname(os.path.dirname(os.path.abspath(__file__)))
 PY = '/venv/bin/python'
 
 # id -> (technique, level text, level note, design ref)
+SRV_NOTE = ('Trusted: Coq kernel + vm_compute; hand models Server/Server.v + Manager/Manager.v + Codec/Packet.v tied by sampled '
+            'correspondence (per-peer packet sequences, handler / callback sequences, API results, full canonical state dump) against '
+            'socketio.Server and socketio.AsyncServer over real engine.io sockets built by hand; scripted handlers; json.loads oracle; '
+            'engine.io id generator replaced by a counter.')
+
+
+def srv(text, ref):
+    return ('Coq theorems about the hand model of server.py/base_manager.py + differential correspondence with Server and '
+            'AsyncServer evaluated by vm_compute + Coq-checked boolean checker judging the implementation\'s observations',
+            text, SRV_NOTE, ref)
+
+
 CLAIMED = {
     'C01': ('Coq theorems about a hand model of packet.py (round trip, conformance to a spec-derived codec) + '
             'differential correspondence model/implementation evaluated by vm_compute + Coq-checked boolean checker on implementation output',
-            'Proof (Coq 8.16.1) about the hand model Codec/Packet.v for all packets of the stated domain; the model is tied to '
-            'src/socketio/packet.py on every run by differential execution on generated packets and a malformed frame stream '
-            '(byte-exact frames, equal decoded fields / exception class), and the property checker c01_eval is evaluated inside Coq '
-            'on what the implementation produced.',
+            'Proof (Coq 8.16.1) about the hand model Codec/Packet.v for all packets of the stated domain: encode = spec_encode for every '
+            'packet, reconstruct o deconstruct = id, decimal round trip, full round trip and interop with the spec-derived decoder '
+            '(json.loads as a named oracle premise, hence "_partial"); the model is tied to src/socketio/packet.py on every run by '
+            'differential execution on generated packets and a malformed frame stream (byte-exact frames, equal decoded fields / '
+            'exception class), and the checker c01_eval (proved sound) is evaluated inside Coq on what the implementation produced.',
             'Trusted: Coq kernel + vm_compute; the hand model and the sampled correspondence; json.loads as an oracle '
             '(round-trip theorems carry it as a hypothesis); generators; Python->Gallina printer. Top-level numeric payloads are '
-            'outside the domain (wire format cannot carry them).',
+            'outside the domain (wire format cannot carry them, C01_number_payload_refuted).',
             'DESIGN.md section 6 C01'),
+    'C03': srv('Proof about the model (invariant WF over all histories, recipients of emit = specification set) + correspondence on '
+               'random histories + recipients checker on the packets the implementation queued.', 'DESIGN.md section 6 C03'),
+    'C04': srv('Proof about the model of _handle_connect/_handle_disconnect/disconnect (sequential histories) + correspondence + '
+               'Coq checker of the four connection outcomes, handler-once, fresh sids and disconnect-handler-exactly-once on the '
+               'implementation; asyncio interleavings are covered by the asyncio scheduler part when present, thread races are C20.',
+               'DESIGN.md section 6 C04'),
+    'C05': srv('Proof about the model of event dispatch + correspondence + Coq checker (one handler call, one ACK to the sender only).',
+               'DESIGN.md section 6 C05'),
+    'C06': srv('Proof about the model of ack-id generation and trigger_callback + correspondence + Coq checker (unique ids, callback '
+               'only for the outstanding (client, id), unknown ids without side effect, at most once).', 'DESIGN.md section 6 C06'),
+    'C11': srv('Proof about the model (no component mentions a departed transport) + full-state correspondence + Coq checker applied to '
+               'the implementation\'s state dump + object-graph growth measurement.', 'DESIGN.md section 6 C11'),
+    'C12': srv('Proof about the model (a frame from one transport changes nothing owned by another) + correspondence under a malformed '
+               'stream + Coq checker on bystanders.', 'DESIGN.md section 6 C12'),
+    'C16': srv('Proof about the model of the session store + correspondence + Coq checker replaying a specification store keyed by '
+               '(sid, namespace); one open finding (KNOWN_FINDINGS.txt).', 'DESIGN.md section 6 C16'),
+    'C13': ('py2coq translation of the four lookup functions from /repo on every run; Coq theorems (generated function = six-level '
+            'precedence spec for all registries/events/namespaces/args) re-proved against the regenerated text; exhaustive run on the real classes',
+            'Proof by translation: the Gallina definitions are regenerated from base_server.py / base_client.py on every run and the '
+            'theorems re-checked; plus exhaustive enumeration (2^6 x reserved x unrelated x 6 class/handler kinds) on the real classes '
+            'compared in Coq with spec and generated functions.',
+            'Trusted: Coq kernel; py2coq translator (validated each run by evaluating generated definitions against the real functions); '
+            'hand model of _trigger_event / Namespace.trigger_event tied by the exhaustive correspondence.', 'DESIGN.md section 5, 6 C13'),
+    'C17': ('fwd2coq translation of every namespace helper and underlying signature from /repo on every run; Coq theorems per helper '
+            '(forwards_ok for all argument values and all explicit-argument subsets); exhaustive run on the real classes',
+            'Proof by translation: helper bodies and underlying signatures are regenerated each run; 30 per-helper theorems + cover + '
+            'soundness re-checked; exhaustive call shapes on the real classes compared in Coq.',
+            'Trusted: Coq kernel; fwd2coq translator (validated against inspect.signature each run); bind_call model of Python argument '
+            'binding (validated against CPython each run).', 'DESIGN.md section 5, 6 C17'),
+    'C15': ('Coq theorems about a hand model of the pub/sub listener loop and Redis retry loops + differential correspondence with '
+            'PubSubManager / AsyncPubSubManager + Coq-checked checkers on implementation traces',
+            'Proof about the model Listener/Listener.v (totality and compositionality of the loop for all message lists and fault scripts, '
+            'inertness of ineffective messages, echo filter, foreign callbacks, Redis back-off) + correspondence on channel sequences with '
+            'sentinels on both managers + fake redis.',
+            'Trusted: Coq kernel + vm_compute; hand model tied by sampled correspondence; pickle/json decode oracle; fake redis module; '
+            'the broker is an ordered reliable channel by assumption.', 'DESIGN.md section 6 C15'),
+    'C10': ('Coq theorems about a hand model of the reconnection policy + differential correspondence with Client / AsyncClient over a fake engine.io client',
+            'Proof about the model Reconnect/Reconnect.v (delay bounds, attempt limits, only-accidental, abort, single effort) for all '
+            'parameters and fault scripts + correspondence on fault-script x parameter grids, waits observed through the wait primitive.',
+            'Trusted: Coq kernel + vm_compute; hand model tied by sampled correspondence; fake engine.io client reproducing the state '
+            'transitions socketio relies on; random.random patched to dyadic values.', 'DESIGN.md section 6 C10'),
+    'C19': ('Coq theorems about a small-step interleaving model of SimpleClient.receive for all schedules + scheduled runs of the real SimpleClient / AsyncSimpleClient',
+            'Proof about the model Simple/SimpleClient.v (FIFO, timeout only if empty, disconnected after drain, termination) for all '
+            'schedules + deterministic scheduled runs of the real classes compared step for step.',
+            'Trusted: Coq kernel + vm_compute; hand model and its choice of atomic steps; deterministic schedulers (instrumented events); '
+            'fake Client class.', 'DESIGN.md section 6 C19'),
 }
 
+READY = {'C01', 'C03', 'C04', 'C05', 'C06', 'C11', 'C12', 'C13', 'C16', 'C17'}
 NOT_YET = 'check not built yet in this round; planned as described in DESIGN.md section 6'
 
 
@@ -29,7 +89,7 @@ def main():
     checks, na = [], []
     for p in props:
         cid = p['id']
-        if cid in CLAIMED and os.path.exists(os.path.join(HERE, 'harness', 'props', cid.lower() + '.py')):
+        if cid in CLAIMED and cid in READY and os.path.exists(os.path.join(HERE, 'harness', 'props', cid.lower() + '.py')):
             tech, text, note, ref = CLAIMED[cid]
             checks.append({
                 'property_id': cid,
